@@ -136,6 +136,10 @@ func init() {
 		Gen:     GenC17Script,
 		Oracles: func() []Oracle { return nil },
 	}
+	Props["C18"] = PropDef{
+		Gen:     GenC18Script,
+		Oracles: func() []Oracle { return nil },
+	}
 	Props["C20"] = PropDef{
 		Gen:     GenC20Script,
 		Oracles: func() []Oracle { return nil },
